@@ -27,7 +27,7 @@ CFGS = {
                       PeerIPs='{"A", "B"}', LifeReqs='<- MCLifeAbsent0', PermSeqs='<- MCPermSeqsAB',
                       PermTO='3', ChanTO='2', MaxDepth='8'),
     "MC_time": dict(kind="mc", doc="lifetimes: every LIFETIME class, refreshes, expiry",
-                    PeerIPs='{"A"}', PeerPorts='{1}', ChanNums='{16384}', LifeReqs='<- MCLifeTime',
+                    ReqFams='{0, 6}', PeerIPs='{"A"}', PeerPorts='{1}', ChanNums='{16384}', LifeReqs='<- MCLifeTime',
                     Txids='{"t1", "t2"}', MaxDepth='8'),
     "MC_iso": dict(kind="mc", doc="three 5-tuples (same IP other port, other IP), shared users, peers, numbers, txids",
                    Clients='{"c1", "c2", "c3"}', Users='{"u1", "u2"}', PeerIPs='{"A"}', ChanNums='{16384}',
@@ -46,8 +46,8 @@ CFGS = {
     "GEN_relayD": dict(kind="gen", doc="two clients, operator veto for (c1,B), IPv6 peer, invalid channel number",
                        Clients='{"c1", "c2"}', PeerIPs='{"A", "B", "X"}', PeerPorts='{1}', ReqFams='{0}',
                        ChanNums='{16384, 1}', PermSeqs='<- MCPermSeqs2', Denied='<- MCDenied', MaxDepth='5'),
-    "GEN_time": dict(kind="gen", doc="allocation lifetime classes, refresh, delete, expiry",
-                     PeerIPs='{"A"}', PeerPorts='{1}', ChanNums='{16384}', LifeReqs='<- MCLifeTime',
+    "GEN_time": dict(kind="gen", doc="allocation lifetime classes, refresh (also with a REQUESTED-ADDRESS-FAMILY), delete, expiry",
+                     ReqFams='{0, 6}', PeerIPs='{"A"}', PeerPorts='{1}', ChanNums='{16384}', LifeReqs='<- MCLifeTime',
                      Txids='{"t1", "t2"}', MaxDepth='5'),
     "GEN_users": dict(kind="gen", doc="two users on one 5-tuple: ownership checks on every method",
                       Users='{"u1", "u2"}', PeerIPs='{"A"}', PeerPorts='{1}', ChanNums='{16384}',
